@@ -33,7 +33,7 @@ ASSUMPTIONS = [
     "action sets hold pairwise distinct actions; extra fields are plain data (no callables) with neutral names",
     "what the learner sees is compared with the original only when the environment is already final (no Categorical, "
     "no lazy rows); otherwise only positional relations (chosen index -> reward of that index) are asserted",
-    "mapping-form DiscreteReward is not combined with Categorical actions (that re-mapping is C10's subject)",
+
     "prediction shapes are restricted to those SafeLearner classifies without its extra probing predict "
     "(no batch whose size equals the length of a prediction row; no PMF over fewer than 3 actions; no bare dict action); "
     "the format grid itself is C15's subject",
@@ -170,7 +170,7 @@ def gen_case(rng):
     if akind in CONT:      rkinds = ["l1", "lin"]
     elif akind in ("int", "float"): rkinds = ["list", "list", "dpair", "dmap", "binary", "l1", "fn"]
     elif akind in ("list", "sparse"): rkinds = ["list", "dpair", "binary", "fn"]
-    elif akind == "cat":   rkinds = ["list", "dpair", "binary", "fn"]
+    elif akind == "cat":   rkinds = ["list", "dpair", "dmap", "dmap", "binary", "fn"]
     else:                  rkinds = ["list", "dpair", "dmap", "binary", "fn"]
     rkind = rng.choice(rkinds) if has_rewards else None
 
